@@ -50,6 +50,14 @@ impl Args {
             }
             i += 1;
         }
+        if let Some(c) = a.replay_case() {
+            if let Some(t) = c["tier"].as_str() {
+                a.tier = t.to_string();
+            }
+            a.shard = 0;
+            a.nshards = 1;
+            a.budget_s = 0.0;
+        }
         a
     }
     pub fn thorough(&self) -> bool {
@@ -59,6 +67,40 @@ impl Args {
         self.opts.iter().find(|(a, _)| a == k).map(|(_, v)| v.as_str())
     }
     pub fn report(&self) -> Report {
-        Report::new(&self.prop, &self.tier, self.shard, self.nshards, self.out.clone(), self.budget_s)
+        let mut r = Report::new(&self.prop, &self.tier, self.shard, self.nshards, self.out.clone(), self.budget_s);
+        if let Some(u) = self.replay_unit() {
+            r.only_unit = Some(u);
+            r.max_samples = 0;
+        }
+        r
+    }
+
+    /// Replay mode: the recorded case file (as written by ./check under replays/) names the tier and the
+    /// enumeration unit; the engine is re-run on that unit alone.
+    pub fn replay_case(&self) -> Option<serde_json::Value> {
+        let p = self.replay.as_ref()?;
+        let txt = std::fs::read_to_string(p).unwrap_or_else(|e| panic!("cannot read replay file {}: {}", p, e));
+        Some(serde_json::from_str(&txt).unwrap_or_else(|e| panic!("replay file {} is not JSON: {}", p, e)))
+    }
+
+    pub fn replay_unit(&self) -> Option<u64> {
+        self.replay_case().and_then(|c| c["case"]["unit"].as_u64())
+    }
+
+    /// After a replay run: did the recorded signature come back? Prints the verdict and returns the exit code.
+    pub fn replay_verdict(&self, rep: &Report) -> i32 {
+        let c = self.replay_case().unwrap();
+        let sig = c["signature"].as_str().unwrap_or("");
+        println!("replay of {} (tier {}, unit {}): {} cases evaluated", sig, self.tier, rep.only_unit.map(|u| u.to_string()).unwrap_or_default(), rep.evaluations);
+        for (s, v) in &rep.violations {
+            println!("  {} {} ({} cases): {}", if s == sig { "REPRODUCED" } else { "also found" }, s, v.count, v.what);
+        }
+        if rep.violations.contains_key(sig) {
+            println!("VIOLATION property={} replay={}", rep.prop, self.replay.as_ref().unwrap());
+            1
+        } else {
+            println!("NOT REPRODUCED on the current tree: {}", sig);
+            0
+        }
     }
 }
